@@ -16,18 +16,18 @@ inductive Kind where
   | existential    -- `if p(k) { found = true; break }`                                (covered_perm)
   | collectSort    -- guarded append + `sort.Strings` afterwards                       (passes_equiv, sortStrings_perm)
   | singleSource   -- append what each entry contributes; ≤ 1 entry contributes       (gather_perm; otherwise Out)
-  | lastWriter     -- `rev[v] = k`: order-free iff the map is injective               (reverseMap_perm; otherwise F_aliasDup)
-  | message        -- the order only reaches a log line                               (F_msgOrder)
+  | checkedReverse -- `if dup → Fatal; rev[v] = k`: Fatal in every order, else injective (reverseMapChecked_perm, all inputs)
+  | message        -- the order only reaches the `-v` debug line                        (recorded, not file bytes)
   deriving DecidableEq, Repr
 
 def siteTable : List ((String × String × String) × Kind) := [
-  (("cmd/shoot", "main", "srcMap"), .distinctKeys),                                        -- files; the success message lists them in map order (.message as well)
+  (("cmd/shoot", "main", "srcMap"), .distinctKeys),                                        -- files; the success message is sorted afterwards (successMessage_perm)
   (("internal/mapper", "(*Generator).neverWriteCheck", "g.writeDestSet"), .existential),
   (("internal/mapper", "(*Generator).neverWriteCheck", "g.writeSrcSet"), .existential),
   (("internal/mapper", "(*Generator).nilCheckWrite", "g.destPtrTypeMap"), .collectSort),
   (("internal/mapper", "(*Generator).nilCheckWrite", "g.srcPtrTypeMap"), .collectSort),
   (("internal/mapper", "(*Generator).nilCheckWrite", "g.writeDestMap()"), .collectSort),   -- outer loop: one guarded pass per matching value
-  (("internal/restclient", "(*Generator).cookClient", "asMap"), .lastWriter),
+  (("internal/restclient", "(*Generator).cookClient", "asMap"), .checkedReverse),
   (("internal/restclient", "(*Generator).cookClient", "g.data.DefaultHeaders"), .eachTable),
   (("internal/restclient", "(*Generator).cookClient", "headers"), .distinctKeys),
   (("internal/restclient", "extractStructFields", "pkg.Files"), .singleSource),
@@ -39,7 +39,7 @@ def siteTable : List ((String × String × String) × Kind) := [
 /-- sites whose order-independence needs a condition on the input; the condition's failure is a finding region
     (the unchanged code is non-deterministic there) or lies outside the input domain -/
 def conditional : Kind → Bool
-  | .singleSource | .lastWriter | .message => true
+  | .singleSource | .message => true
   | _ => false
 
 /-! ## The composed run -/
@@ -68,7 +68,8 @@ structure Input where
 /-- everything the written bytes are computed from, plus the directory afterwards -/
 structure Output where
   goFiles : List String
-  pathParams : List String
+  pathParams : Option (List String)                 -- none: the run stopped on a duplicate alias
+  message : List String                             -- the success message
   parsedHeader : String → Option String
   header : String → String → Option String
   structFields : List String
@@ -82,7 +83,8 @@ def hdrTables (o : Oracle) (i : Input) : Entries String (Entries String String) 
 
 def run (o : Oracle) (i : Input) : Output :=
   { goFiles := i.typeNames.map (fun t => getGoFile i.defs t),
-    pathParams := realPathParams (o.order "cookClient/asMap" i.alias) i.pathParams,
+    pathParams := realPathParamsChecked (o.order "cookClient/asMap" i.alias) i.pathParams,
+    message := successMessage (o.order "main/srcMap" i.outputs),
     parsedHeader := fun k => get (putAll (o.order "parseHeaders/kvMap" i.kv) []) k,
     header := fun verb key => (get (hdrTables o i) verb).bind (fun tab => get tab key),
     structFields := gather (o.order "extractStructFields" i.structFiles),
@@ -91,8 +93,8 @@ def run (o : Oracle) (i : Input) : Output :=
     ptrType := fun k => get (ptrPaths (i.passes.map (fun p => (p.2.1, o.order ("nilCheckWrite/" ++ p.1) p.2.2)))).2 k,
     file := fun n => get (writeAll (o.order "main/srcMap" i.outputs) i.dir) n }
 
-/-- the success message of this execution (main.go:86-88): not part of `Output` -/
-def message (o : Oracle) (i : Input) : List String := messageOf (o.order "main/srcMap" i.outputs)
+/-- the `-v` debug line of LoadPackage lists the overlay keys in iteration order: not part of `Output` -/
+def debugLine (o : Oracle) (i : Input) : List String := messageOf (o.order "LoadPackage/overlay" i.outputs)
 
 /-! ## Well-formed inputs -/
 
@@ -101,13 +103,10 @@ def isMaps (i : Input) : Prop :=
   (keys i.alias).Nodup ∧ (keys i.headers).Nodup ∧ (keys i.kv).Nodup ∧ (keys i.tables).Nodup ∧
   (keys i.outputs).Nodup ∧ (∀ p ∈ i.passes, (keys p.2.2).Nodup)
 
-/-- no two parameters are aliased to the same placeholder -/
-def aliasInjective (i : Input) : Prop := (i.alias.map (·.2)).Nodup
-
 /-- the struct of a query parameter is declared in one file of one package -/
 def singleDecl (i : Input) : Prop := (i.structFiles.filter (fun e => !e.2.isEmpty)).length ≤ 1
 
-def WF (i : Input) : Prop := isMaps i ∧ aliasInjective i ∧ singleDecl i
+def WF (i : Input) : Prop := isMaps i ∧ singleDecl i
 
 /-! decidable versions for the driver -/
 
